@@ -1,26 +1,32 @@
 import WfModel.Drv.RangeSet
+import WfModel.Drv.Core
 /-!
 Line-protocol driver: one request per line on stdin, one answer per line on stdout.
 Unknown / malformed requests answer `bad-op` (never a default value).
 -/
 open WfModel
 
+/-- stateless handlers (one self-contained request per line) -/
 def handlers : List (List String → Option String) :=
   [ Drv.RangeSet.handle ]
 
-def dispatch (ws : List String) : String :=
-  match handlers.findSome? (fun h => h ws) with
+def dispatch (st : Drv.Core.St) (ws : List String) : Drv.Core.St × String :=
+  match Drv.Core.step st ws with
   | some r => r
-  | none => "bad-op"
+  | none =>
+    match handlers.findSome? (fun h => h ws) with
+    | some r => (st, r)
+    | none => (st, "bad-op")
 
-partial def loop (h : IO.FS.Stream) (out : IO.FS.Stream) : IO Unit := do
+partial def loop (h : IO.FS.Stream) (out : IO.FS.Stream) (st : Drv.Core.St) : IO Unit := do
   let line ← h.getLine
   if line.isEmpty then return ()
   let ws := (line.trimAscii.toString.splitOn " ").filter (· ≠ "")
-  out.putStrLn (dispatch ws)
-  loop h out
+  let (st', ans) := dispatch st ws
+  out.putStrLn ans
+  loop h out st'
 
 def main : IO Unit := do
   let out ← IO.getStdout
-  loop (← IO.getStdin) out
+  loop (← IO.getStdin) out {}
   out.flush
